@@ -1,6 +1,6 @@
 #!/bin/sh
 # discovery run of all thorough tiers (from a snapshot); dumps every violation for triage
-for p in C08 C20 C19 C09 C01 C04 C03 C07 C10 C11 C14 C12 C05 C15; do
+for p in C14 C05 C12 C15; do
   s=$(date +%s)
   VERIF_DUMP_ALL=1 VERIF_NO_CONFIRM=1 ./check $p thorough > out_$p.txt 2>&1
   echo "$p rc=$? $(( $(date +%s)-s ))s $(grep "^\[$p thorough\]" out_$p.txt | cut -c1-220) viol=$(grep -c '^VIOLATION' out_$p.txt) broken=$(grep -c '^BROKEN' out_$p.txt)"
